@@ -9,4 +9,7 @@ EXPLANATION = (
     "in to_dict / _from_dict_init is decided by the bounded differential.")
 ASSUMED = ["to_dict / _from_dict_init are not under contract: bounded differential only"]
 from pyvc.check import standin_bounded
-BOUNDED = [standin_bounded("C05")]
+from pyvc.check import external_bounded
+BOUNDED = [standin_bounded("C05"),
+           external_bounded("deep-schema:C05", "standin.deep", ["C05", "--n", "150"], ["C05", "--n", "800"],
+                            "twin classes (same shape, different meaning) in both first-use orders: JSON round trip")]
